@@ -245,3 +245,38 @@ fn c10_span_prefix_forms_evaluate_once_iff_enabled() {
         assert!(evals.get() == 0 && s.spans.load(AO::SeqCst) == 0 && s.n.load(AO::SeqCst) == 0, "C10.span.prefix_forms.nothing_evaluated_when_disabled_by_any_stage");
     }
 }
+
+// shorthand fields (`name`, `?name`, `%name`: the field is called like the variable) next to `name = value` fields: names and
+// values stay paired, whatever the position of the shorthand (each position / sigil is a separate arm of valueset!)
+#[kani::proof]
+#[kani::unwind(8)]
+#[kani::stub(core::fmt::Formatter::pad, pad_stub)]
+#[kani::stub(tracing_core::dispatch::get_default, get_default_stub)]
+#[kani::stub(tracing_core::metadata::LevelFilter::current, current_stub)]
+#[kani::stub(tracing_core::callsite::register, register_stub)]
+fn c10_shorthand_fields_keep_names_and_values_paired() {
+    let s = new_st();
+    NEXT_CACHED.store(2, AO::SeqCst); CUR_MAX.store(5, AO::SeqCst);
+    let d = Dispatch::__verif_unregistered(Rec { dynamic: true, s: s.clone() });
+    CUR_DISPATCH.store(&d as *const Dispatch as usize, AO::SeqCst);
+    let x: u64 = nd(); let zeta: u64 = nd();
+    let (dd, dg) = (Cell::new(0), Cell::new(0));
+    let thing = Probe { disp: &dd, dbg: &dg };
+    let form: u8 = nd(); kani::assume(form < 6);
+    // expected: (position of `alpha`, position of the shorthand field, its first letter, its kind, its value)
+    let (pa, ps, letter, kind, val): (usize, usize, u8, usize, usize) = match form {
+        0 => { crate::event!(Level::INFO, alpha = x, ?thing); (0, 1, b't', K_DEBUG, 0) }
+        1 => { crate::event!(Level::INFO, alpha = x, %thing); (0, 1, b't', K_DEBUG, 0) }
+        2 => { crate::event!(Level::INFO, ?thing, alpha = x); (1, 0, b't', K_DEBUG, 0) }
+        3 => { crate::event!(Level::INFO, %thing, alpha = x); (1, 0, b't', K_DEBUG, 0) }
+        4 => { crate::event!(Level::INFO, alpha = x, zeta); (0, 1, b'z', K_U64, zeta as usize) }
+        _ => { let sp = crate::span!(Level::INFO, "s", alpha = x, ?thing); core::mem::forget(sp); (0, 1, b't', K_DEBUG, 0) }
+    };
+    assert!(s.n.load(AO::SeqCst) == 2, "C10.shorthand.both_fields_visited_once");
+    assert!(saw(&s, pa, b'a', K_U64, x as usize), "C10.shorthand.named_field_keeps_its_own_name_type_and_value");
+    assert!(saw(&s, ps, letter, kind, val), "C10.shorthand.shorthand_field_is_called_like_the_variable_and_carries_its_value");
+    // sigils: ? renders Debug, % renders Display, exactly once
+    if form == 0 || form == 2 || form == 5 { assert!(dg.get() == 1 && dd.get() == 0, "C10.shorthand.question_mark_renders_Debug"); }
+    if form == 1 || form == 3 { assert!(dd.get() == 1 && dg.get() == 0, "C10.shorthand.percent_renders_Display"); }
+    kani::cover!(form == 0, "C10.reachable.debug_shorthand_last");
+}
